@@ -417,6 +417,12 @@ class DefiniteAssignment:
         init = (frozenset(self.params), frozenset())
         self.state = {n: set() for n in cfg.nodes}
         self.pending = {n: [] for n in cfg.nodes}       # worlds of state[n] that were not propagated yet
+        self.done = {n: set() for n in cfg.nodes}       # worlds that were propagated (or merged into a weaker one) already
+        # facts about a name that is not tested again before it is re-bound cannot prune any path: dropped on arrival
+        from .paths import FactFlow
+        flow = FactFlow(cfg)
+        flow.fact_vars = set(self.fact_vars)
+        self._live = flow.live()
         self.collapsed = set()
         self.state[cfg.entry].add(init)
         self.pending[cfg.entry].append(init)
@@ -433,6 +439,7 @@ class DefiniteAssignment:
             for w in new:
                 if w not in live:
                     continue            # merged away meanwhile; the merged world is pending itself
+                self.done[n].add(w)
                 outs = self._transfer(n, w)
                 for s, lab in n.succ:
                     if lab == 'exc':
@@ -449,6 +456,9 @@ class DefiniteAssignment:
         return list(self.findings.values())
 
     def _add(self, node, world):
+        live = self._live[node]
+        if world[1] and any(f[0].split('#')[0] not in live for f in world[1]):
+            world = (world[0], frozenset(f for f in world[1] if f[0].split('#')[0] in live))
         st = self.state[node]
         if node in self.collapsed:
             (cur,) = st
@@ -459,12 +469,13 @@ class DefiniteAssignment:
             st.add(new)
             self.pending[node] = [new]
             return True
-        if world in st:
-            return False
+        if world in st or world in self.done[node]:
+            return False                # known, or merged into a weaker world earlier (which covers it)
         st.add(world)
         self.pending[node].append(world)
         if len(st) > WORLD_CAP:
             before = set(st)
+            self.done[node] |= before
             # first: merge worlds with the same assigned-set (their facts are intersected);
             # this cannot produce a spurious unbound read by itself because the merged
             # worlds agree on what is assigned
